@@ -79,7 +79,9 @@ func vConcKinds() map[string]func() *vConcIdx {
 				add:    func(id uint32, c int) error { return idx.Add(id, vConcTexts[c%4]) },
 				remove: func(id uint32) error { return idx.Remove(id) },
 				search: func(r []uint32) ([]uint32, error) {
-					s := idx.NewSearch().WithQuery("alpha").WithK(-1)
+					// every token of the text alphabet: whatever a document holds (or a lost
+					// update left behind in the postings) matches
+					s := idx.NewSearch().WithQuery("alpha beta gamma").WithK(-1)
 					if len(r) > 0 {
 						s = s.WithDocumentIDs(r...)
 					}
@@ -318,6 +320,60 @@ func init() {
 				x.Spawn("C", func() { x.Op("C", "Add(3)", func() ([]uint32, error) { return nil, ix.add(3, 2) }) })
 			}, []uint32{1}, vNoErr,
 			func(x *vSchedExec, ix *vConcIdx) { srch(x, ix, "main", nil) }))
+		// S13: Remove(2) || Flush || Search with another soft-deleted document present (the
+		// Flush has work to do): a removal that lands inside the Flush stays a removal
+		vScenarios = append(vScenarios, vIdxScenario(k, "S13-remove-flush-search", mk,
+			func(ix *vConcIdx) { ix.add(1, 0); ix.add(2, 1); ix.add(3, 2); ix.remove(3) },
+			func(x *vSchedExec, ix *vConcIdx) {
+				x.Spawn("A", func() { x.Op("A", "Remove(2)", func() ([]uint32, error) { return nil, ix.remove(2) }) })
+				x.Spawn("B", func() { x.Op("B", "Flush", func() ([]uint32, error) { return nil, ix.flush() }) })
+				x.Spawn("C", func() { srch(x, ix, "C", nil) })
+			}, []uint32{1, 2}, vNoErr,
+			func(x *vSchedExec, ix *vConcIdx) { srch(x, ix, "main", nil) }))
+		// S16: Flush || Flush || Add(3) with a soft-deleted document present: two overlapping
+		// compactions do not lose an add that completed
+		vScenarios = append(vScenarios, vIdxScenario(k, "S16-flush-flush-add", mk,
+			func(ix *vConcIdx) { ix.add(1, 0); ix.add(2, 1); ix.add(4, 3); ix.remove(2) },
+			func(x *vSchedExec, ix *vConcIdx) {
+				x.Spawn("A", func() { x.Op("A", "Flush", func() ([]uint32, error) { return nil, ix.flush() }) })
+				x.Spawn("B", func() { x.Op("B", "Flush", func() ([]uint32, error) { return nil, ix.flush() }) })
+				x.Spawn("C", func() {
+					x.Op("C", "Remove(4)", func() ([]uint32, error) { return nil, ix.remove(4) })
+					x.Op("C", "Add(3)", func() ([]uint32, error) { return nil, ix.add(3, 2) })
+				})
+			}, []uint32{1, 4}, vNoErr,
+			func(x *vSchedExec, ix *vConcIdx) { srch(x, ix, "main", nil) }))
+		// S17: update = Remove(1); Add(1, other content) while two searches run: once the
+		// re-add has returned the document is visible again (an Add that has to compact or
+		// purge first must not give up because readers are active)
+		vScenarios = append(vScenarios, vIdxScenario(k, "S17-readd-same-id-searches", mk,
+			func(ix *vConcIdx) { ix.add(1, 0); ix.add(2, 1) },
+			func(x *vSchedExec, ix *vConcIdx) {
+				x.Spawn("A", func() {
+					x.Op("A", "Remove(1)", func() ([]uint32, error) { return nil, ix.remove(1) })
+					x.Op("A", "Add(1)", func() ([]uint32, error) { return nil, ix.add(1, 2) })
+				})
+				x.Spawn("B", func() { srch(x, ix, "B", nil) })
+				x.Spawn("C", func() { srch(x, ix, "C", nil) })
+			}, []uint32{1, 2}, vNoErr,
+			func(x *vSchedExec, ix *vConcIdx) { srch(x, ix, "main", nil) }))
+		// S15 (kinds for which Add on an existing id replaces the document): two adds of the
+		// SAME fresh id race; afterwards the id is removed and flushed and must be gone
+		if k == "bm25" || k == "hybrid" {
+			vScenarios = append(vScenarios, vIdxScenario(k, "S15-same-id-adds", mk,
+				func(ix *vConcIdx) { ix.add(2, 1) },
+				func(x *vSchedExec, ix *vConcIdx) {
+					x.Spawn("A", func() { x.Op("A", "Add(1)", func() ([]uint32, error) { return nil, ix.add(1, 0) }) })
+					x.Spawn("B", func() { x.Op("B", "Add(1)", func() ([]uint32, error) { return nil, ix.add(1, 2) }) })
+					x.Spawn("C", func() { srch(x, ix, "C", nil) })
+				}, []uint32{2}, vNoErr,
+				func(x *vSchedExec, ix *vConcIdx) {
+					srch(x, ix, "main", nil)
+					x.Op("main", "Remove(1)", func() ([]uint32, error) { return nil, ix.remove(1) })
+					x.Op("main", "Flush", func() ([]uint32, error) { return nil, ix.flush() })
+					srch(x, ix, "main", nil)
+				}))
+		}
 		// S11: a search with SEVERAL queries || Add || Remove (per-query locking)
 		if probe := mk(); probe.search2 != nil {
 			vScenarios = append(vScenarios, vIdxScenario(k, "S11-multiquery-add-remove", mk,
